@@ -96,7 +96,17 @@ def run_sweep(spec, rec):
             check_segment_text(parser, v, seg, line, [row.name], rec, 'sweep')
     rec.count('field_rows_swept', n)
     rec.count('field_rows_in_tables', sum(len(r) for r in tables.segments(v).values() if r) - 2)
-    # component / sub-component rows through parse_field and parse_component
+    # component / sub-component rows through parse_field and parse_component; textual leaves carry every escape sequence
+    # of the version (already escaped text is emitted unchanged, whichever class serves the datatype in this version)
+    from . import c06
+    textual = set(c06.textual_classes(v))
+    seqs = ''.join('\\%s\\' % l for l in er7ref.letters_for(v))
+
+    class _W(object):
+        @staticmethod
+        def witness(version, dt):
+            w = gen.witness(version, dt)
+            return (w + seqs + 'z') if dt in textual else w
     hosts = c02._host_fields(v)
     comp_hosts = {}
     for dt in tables.complex_datatypes(v):
@@ -108,12 +118,12 @@ def run_sweep(spec, rec):
         for crow in tables.components(v, dt):
             if not crow.ok or crow.card[1] == 0:
                 continue
-            val = gen.witness(v, crow.datatype) if crow.kind == 'leaf' else None
+            val = _W.witness(v, crow.datatype) if crow.kind == 'leaf' else None
             if val is None:
                 subs = [s for s in tables.components(v, crow.datatype) if s.card[1] != 0 and s.ok and s.kind == 'leaf']
                 if not subs:
                     continue
-                val = '&' * (subs[0].num - 1) + gen.witness(v, subs[0].datatype)
+                val = '&' * (subs[0].num - 1) + _W.witness(v, subs[0].datatype)
             text = '^' * (crow.num - 1) + val
             if host:
                 rec.evaluation(('sweep-field', v, host, text))
@@ -131,7 +141,7 @@ def run_sweep(spec, rec):
                 # dt used as a component datatype: its rows are sub-components there
                 if crow.kind != 'leaf':
                     continue
-                text2 = '&' * (crow.num - 1) + gen.witness(v, crow.datatype)
+                text2 = '&' * (crow.num - 1) + _W.witness(v, crow.datatype)
                 rec.evaluation(('sweep-comp', v, chost, text2))
                 case = {'kind': 'component', 'version': v, 'name': chost, 'text': text2}
                 try:
